@@ -66,7 +66,7 @@ func init() {
 			{Name: "sweep-plans", Bubble: true, Run: c13Sweep, SweepN: c13SweepN, QuickSweep: true, Exhaustive: true,
 				SweepNote: "MaxRetransmits 0..2 x every sequence of 1-3 watchdog cycles over 8 per-cycle peer plans (ack at 0 / half / 1 ns before the deadline, ack only the 1st retransmission, failure code then success, answer every transmission one interval late, answer late, silence): 1 752 cases"},
 		},
-		MustProbes: []string{"cycle-acked", "silent-peer-closed", "spared-20-cycles", "dwa-checked", "dwa-surplus", "dwa-failure-code", "client-role-dwa", "app-write-stalled"},
+		MustProbes: []string{"cycle-acked", "silent-peer-closed", "spared-20-cycles", "dwa-checked", "dwa-surplus", "dwa-failure-code", "client-role-dwa", "app-write-stalled", "slow-dwr-writes", "dwr-write-temp-error"},
 	})
 }
 
